@@ -26,6 +26,8 @@ def tasks(tier, seed):
         P = families.select(P, 60, seed) + families.corpus(["lorentz.ode", "beeler_reuter_1977.ode"])
     else:
         P = families.select(P, 600, seed) + families.corpus()
+    from .. import gen
+    P += gen.programs(tier, seed, 100, 1500, "std")
     out = []
     for i, p in enumerate(P):
         one = tier == "quick" and p["family"] not in ("WIDE", "NOPARAM", "LAYOUT")   # one-of-a-kind programs: every backend
@@ -93,8 +95,19 @@ def work(task):
     if bodies:
         ref = bodies.get("explicit_euler")
         for alias, bd in bodies.items():
-            prog.fact(f"numpy|alias|{alias}|body", bd == ref, "AliasBody",
-                      f"body of {alias} differs from explicit_euler")
+            if bd == ref:
+                prog.fact(f"numpy|alias|{alias}|body", True, "AliasBody", "")
+                continue
+            # The text differs.  That alone is no violation of C05 (sympy prints the operands of And / Or in an order that
+            # can change between two generations); what the property demands is that the function under this name is the
+            # Euler step, which the solver decides on the module generated for this name.
+            va = checks.make_view(prog, ode, "numpy", label=f"numpy|alias|{alias}|get_code", schemes=[alias])
+            if va is None:
+                continue
+            if not va.has(alias):
+                prog.fact(f"numpy|alias|{alias}|body", False, "AliasBody", f"module generated for scheme {alias!r} has no function {alias}")
+                continue
+            checks.check_euler(prog, va, m, fn=alias, tag="|alias-body")
     prog.nontrivial = prog.stats.solver_s > 0
     return prog.result()
 
